@@ -329,6 +329,16 @@ def seq_token_fields(m, inst):
     return hits
 
 
+def has_qname_type(tp):
+    if not tp:
+        return False
+    if tp[0] == "prim":
+        return tp[1] in ("QName", "object")
+    if tp[0] == "punion":
+        return "QName" in tp[1]
+    return False
+
+
 def fields_along(m, inst, path):
     """walk the instance recipe along a diff path like .f1[2].f0; return [(class desc, field desc)] of every field crossed"""
     cur = inst
@@ -387,7 +397,12 @@ def classify(m, inst, case, res, vres):
         return v in vres and vres[v] != here
 
     if explains("no_default_ns"):
-        return "user-default-namespace"            # C03: attribute / QName value under a user default namespace
+        # open finding C01-F3 is about QName VALUES only; anything else that breaks under a user default namespace
+        # (e.g. an attribute written unprefixed: repaired finding C01-F6) is a different class
+        last = fields_along(m, inst, path)[-1:]
+        if any(has_qname_type(f.get("type")) for _, f in last) or "<type " in path:
+            return "user-default-namespace"        # a QName value, or the QName value of xsi:type ("C4" for a class without namespace)
+        return "user-default-namespace-attribute"
     if explains("no_ns_map"):
         return "user-prefix-map"
     if explains("no_indent") and (".text" in path or ".tail" in path or "[" in path):
@@ -445,7 +460,7 @@ def model_of_source(src):
             kind = re.search(r"'type': '(\w+)'", md)
             tp = re.search(r'"(C\d+)"', f.group(2))
             fields.append({"name": f.group(1), "kind": kind.group(1) if kind else "Element",
-                           "type": ("class", tp.group(1)) if tp else ("prim", "str"),
+                           "type": ("class", tp.group(1)) if tp else ("prim", "QName" if "QName" in f.group(2) else "str"),
                            "nillable": "'nillable': True" in md, "tokens": "'tokens': True" in md,
                            "sequence": (re.search(r"'sequence': (\d+)", md) or [None, None])[1]})
         classes.append({"name": m.group(1), "base": m.group(2), "meta": meta, "fields": fields})
